@@ -201,6 +201,12 @@ def configs(tier):
             for retries in (1, 3) if tier == "quick" else (0, 1, 2, 3):
                 for iocb in (False, True):
                     out.append(base_cfg(S, req_len=rq, rsp_len=rp, c_win=cw, s_win=sw, retries=retries, iocb=iocb))
+    # the peer's I-Am is recorded while the transaction is under way: before the first retry, between retries, after the outcome
+    for rsp in ("ack", "silent", "error"):
+        for iocb in (False, True):
+            for know_at in (0.5, 3.5, 7.0):
+                out.append(base_cfg(S, req_len=5, rsp_len=5, rsp=rsp, retries=2, iocb=iocb, know_at=know_at))
+            out.append(base_cfg(S, req_len=n2, rsp_len=n2, rsp=rsp, retries=1, iocb=iocb, know_at=0.7))
     # error / reject after a segmented request
     for rsp in ("error", "reject", "abort", "silent"):
         out.append(base_cfg(S, req_len=n3, rsp_len=5, rsp=rsp, retries=1))
